@@ -1,6 +1,7 @@
 import TinyFlux.Mirror.Getters
 import TinyFlux.Mirror.TagsNE
 import TinyFlux.Mirror.DbGetters
+import TinyFlux.Mirror.DbReindex
 /-!
 # C07 over the translated source: the getters of `tinyflux/index.py`
 
@@ -77,6 +78,14 @@ theorem model_getters_are_the_models_step (s : State) (k : String) (m : Option S
     ∧ (s.step (.getFieldValues k m)).2 = .nums (modelFieldValues s.readOp k m)
     ∧ (s.step (.getTimestamps m)).2 = .times (modelTimestamps s.readOp m) :=
   model_getters_are_step s k m
+
+/-- `TinyFlux.all(sorted)` as translated: every stored row, in a stable time order when asked for — and that is what the
+    Model's `step` answers for `.all sorted` -/
+theorem translated_all (norm : Point → Point) (g : DSelf) (sorted : Bool) :
+    DatabaseImpl.all g sorted = .ok (if sorted then State.sortByTime g._storage._items else g._storage._items)
+    ∧ ((absDB norm g).step (.all sorted)).2
+        = .points (if sorted then State.sortByTime g._storage._items else g._storage._items) :=
+  all_ok norm g sorted
 
 /-- non-vacuity: the getters of the index the translated `build` produces for two concrete points -/
 example : ∃ g', IndexImpl.build (IndexImpl.__init__ true)
